@@ -254,6 +254,16 @@ fn run_vm(src: &str, times: usize) -> Result<Vec<f64>, String> {
     }
     Ok(out)
 }
+fn branch_state_programs() -> Vec<(String, Vec<f64>, String)> {
+    vec![
+        ("fn cnt(){ self + 1.0 }\nfn sel(c){\n  if (c) { cnt() } else { cnt()*10.0 }\n}\nfn dsp(){\n  let a = sel(0.0)\n  let b = cnt()\n  a + b*1000.0\n}\n".to_string(),
+         vec![1010.0, 2020.0, 3030.0, 4040.0], "counter in both branches, else path taken, another counter after the if".to_string()),
+        ("fn sel(c){\n  if (c) { mem(10.0) } else { mem(20.0) }\n}\nfn dsp(){\n  let a = sel(0.0)\n  let b = mem(5.0)\n  a + b*100.0\n}\n".to_string(),
+         vec![0.0, 520.0, 520.0, 520.0], "mem in both branches, else path".to_string()),
+        ("fn sel(c){\n  if (c) { mem(10.0) } else { mem(20.0) }\n}\nfn dsp(){\n  let a = sel(1.0)\n  let b = mem(5.0)\n  a + b*100.0\n}\n".to_string(),
+         vec![0.0, 510.0, 510.0, 510.0], "mem in both branches, then path".to_string()),
+    ]
+}
 fn run_vm_sched(src: &str, times: usize) -> Result<Vec<f64>, String> {
     use mimium_audiodriver::{backends::local_buffer::LocalBufferDriver, driver::{Driver, RuntimeData}};
     use mimium_lang::{Config, ExecContext, plugin::Plugin};
@@ -301,6 +311,9 @@ fn layout_programs() -> Vec<(String, String, usize, Vec<f64>, String)> {
     }
     // the same inside a called function
     v.push(("fn cnt(){ self + 1.0 + delay(4.0, 100.0, 2.0)*0.0 }\nfn dsp(){ cnt() }\n".to_string(), "fn cnt(){ self + 1.0 }\nfn dsp(){ cnt() }\n".to_string(), 6, cont(6, 4), "callee: self + delay -> self".to_string()));
+    // a stateful call in statement position (value discarded) followed by other cells
+    v.push(("fn c1(){ self + 1.0 }\nfn c2(){ self + 10.0 }\nfn dsp(){\n  c1()\n  let y = c2()\n  y + mem(7.0)*0.0\n}\n".to_string(),
+            "fn c1(){ self + 1.0 }\nfn c2(){ self + 10.0 }\nfn dsp(){\n  c1()\n  let y = c2()\n  y\n}\n".to_string(), 5, (1..=3).map(|k| ((5 + k) * 10) as f64).collect(), "discarded stateful statement; call; mem -> without mem".to_string()));
     // control without `self`: two mems, the second removed
     v.push(("fn cnt(){ self + 1.0 }\nfn dsp(){ cnt() + mem(3.0)*0.0 }\n".to_string(), "fn cnt(){ self + 1.0 }\nfn dsp(){ cnt() }\n".to_string(), 5, cont(5, 3), "call + mem -> call".to_string()));
     v
@@ -504,13 +517,25 @@ fn main() {
         // samples, then swapped (Machine::new_resume = state migration by the published layouts) for program B, which is
         // A with one output-neutral stateful call removed.  The cells B keeps must continue from their values.
         let progs = layout_programs();
-        let only: Option<usize> = args.get(2).and_then(|s| s.parse().ok());
-        for (i, (a, b, n, expect, desc)) in progs.iter().enumerate() {
+        // `layout-child i` runs one program pair in this process; the search runs each pair in a child process because a
+        // layout that is too small for the run-time accesses may corrupt the VM's heap
+        if args[1] == "layout-search" && args.get(2).map(|s| s.as_str()) == Some("child") {
+            let i: usize = args[3].parse().unwrap();
+            let (a, b, n, expect, _) = &progs[i];
+            match run_hotswap_quiet(a, b, *n, expect.len()) {
+                Ok(v) => if v[*n..] == expect[..] { println!("CHILD-OK") } else { println!("CHILD-BAD after the swap got {:?} expected {:?}", &v[*n..], expect) },
+                Err(e) => println!("CHILD-BAD error: {e}"),
+            }
+            return;
+        }
+        let only: Option<usize> = if args[1] == "layout-run" { args.get(2).and_then(|s| s.parse().ok()) } else { None };
+        let exe = std::env::current_exe().unwrap();
+        for (i, (_a, _b, _n, _expect, desc)) in progs.iter().enumerate() {
             if let Some(o) = only { if o != i { continue; } }
-            let bad = match run_hotswap_quiet(a, b, *n, expect.len()) {
-                Ok(v) => if v[*n..] == expect[..] { None } else { Some(format!("after the swap got {:?} expected {:?}", &v[*n..], expect)) },
-                Err(e) => Some(format!("error: {e}")),
-            };
+            let out = std::process::Command::new(&exe).args(["layout-search", "child", &i.to_string()]).output().unwrap();
+            let so = String::from_utf8_lossy(&out.stdout).to_string();
+            let bad = if !out.status.success() { Some(format!("the VM process died ({}): memory corruption", out.status)) }
+                else if so.contains("CHILD-OK") { None } else { Some(so.trim().replace("CHILD-BAD ", "")) };
             if args[1] == "layout-run" {
                 match bad { Some(c) => println!("FAILS C05[layout published for `{desc}` != run-time cell positions] {c}"), None => println!("HOLDS") }
                 return;
@@ -523,29 +548,29 @@ fn main() {
         println!("NONE tried={}", progs.len());
         return;
     }
-    if args.get(1).map(|s| s.as_str()) == Some("schedvm-search") || args.get(1).map(|s| s.as_str()) == Some("schedvm-run") {
-        // property C11 on the NATIVE VM (SchedulerAudioWorker::on_sample driven by the real local-buffer driver):
-        // small programs whose output is a closed form of "every task runs exactly once at its sample, before dsp"
-        let progs = schedvm_programs();
-        let only: Option<usize> = args.get(2).and_then(|s| s.parse().ok());
-        for (i, (src, expect, desc)) in progs.iter().enumerate() {
-            if let Some(o) = only { if o != i { continue; } }
-            let got = std::panic::catch_unwind(|| run_vm_sched(src, expect.len()));
-            let bad = match got {
-                Ok(Ok(v)) => if v == *expect { None } else { Some(format!("got {v:?} expected {expect:?}")) },
-                Ok(Err(e)) => Some(format!("rejected: {e}")),
-                Err(_) => Some("the VM scheduler panicked".to_string()),
-            };
-            if args[1] == "schedvm-run" {
-                match bad { Some(c) => println!("FAILS SchedulerAudioWorker::on_sample::ensures[{desc}] {c}"), None => println!("HOLDS") }
+    if args.get(1).map(|s| s.as_str()) == Some("branch-state") {
+        // finding F8 (C05, also C03/C02): stateful calls inside the branches of an `if`.  Each program is run in a
+        // child process because the VM may corrupt its heap (the parent reports a crash as a failure).
+        let progs = branch_state_programs();
+        if let Some(i) = args.get(2).and_then(|s| s.parse::<usize>().ok()) {
+            let (src, expect, _) = &progs[i];
+            match run_vm(src, expect.len()) { Ok(v) => println!("OUT {v:?}"), Err(e) => println!("ERR {e}") }
+            return;
+        }
+        let exe = std::env::current_exe().unwrap();
+        for (i, (_src, expect, desc)) in progs.iter().enumerate() {
+            let out = std::process::Command::new(&exe).args(["branch-state", &i.to_string()]).output().unwrap();
+            let so = String::from_utf8_lossy(&out.stdout).to_string();
+            if !out.status.success() {
+                println!("FAILS C05[state accesses inside the storage sized from the layout] `{desc}`: the VM process died ({}) -- memory corruption", out.status);
                 return;
             }
-            if let Some(c) = bad {
-                println!("FOUND index={i} value={desc:?} clause=SchedulerAudioWorker::on_sample::ensures[each task runs exactly once at the sample equal to its time, before dsp] {c}");
+            if so.trim() != format!("OUT {expect:?}") {
+                println!("FAILS C05[each state cell at the offset the layout assigns to it] `{desc}`: got {} expected {expect:?}", so.trim());
                 return;
             }
         }
-        println!("NONE tried={}", progs.len());
+        println!("HOLDS");
         return;
     }
     if args.get(1).map(|s| s.as_str()) == Some("hotswap") {
